@@ -1,6 +1,7 @@
 import PyxisVerif.Spec.C02
 import PyxisVerif.Spec.C08
 import PyxisVerif.Lemmas.C02
+import PyxisVerif.Props.C02Global
 /-!
 # C02 – resolved size and alignment equal the compiler's for every emitted type
 
